@@ -360,6 +360,7 @@ Proof.
   - simpl in H.
     destruct (negb (rate_ok (u_rate u))); [discriminate|].
     destruct (negb (inputs_resolve (zlen consts) (zlen before) (u_ins u))); [discriminate|].
+    destruct (match unit_operator u with Some _ => false | None => true end); [discriminate|].
     simpl io_ins. simpl io_outs.
     destruct (is_ctl_cls (u_cls u)) eqn:Ec.
     + destruct (set_rates cs (u_special u) (List.length (u_outs u)) (u_rate u)) as [cs1|] eqn:Es; [|discriminate].
@@ -432,4 +433,40 @@ Proof.
   rewrite (nth_error_nth' _ 0%nat) by (rewrite seq_length; lia).
   rewrite seq_nth by lia. simpl. rewrite Z2Nat.id by lia.
   rewrite (name_at_in _ n _ None Hnd Hin). reflexivity.
+Qed.
+
+(* ------------------------------------------------------------------ *)
+(* operator units: the reader's table lookup succeeds on the whole range of each operator table *)
+
+Definition row_nonempty (r : list string) : bool := match r with [] => false | _ :: _ => true end.
+
+Lemma table_name_some : forall tab i, forallb row_nonempty tab = true -> 0 <= i < zlen tab ->
+  exists nm rest, nth_error tab (Z.to_nat i) = Some (nm :: rest) /\ table_name tab i = Some (bs_of_string nm).
+Proof.
+  intros tab i Hne Hi. unfold table_name.
+  replace (i <? 0) with false by (symmetry; apply Z.ltb_ge; lia).
+  replace ((i <? 0) || (zlen tab <=? i)) with false
+    by (symmetry; apply orb_false_iff; split; [apply Z.ltb_ge | apply Z.leb_gt]; lia).
+  unfold zlen in Hi.
+  destruct (nth_error tab (Z.to_nat i)) as [row|] eqn:E.
+  - rewrite forallb_forall in Hne. pose proof (Hne row (nth_error_In _ _ E)) as Hr.
+    destruct row as [|nm rest]; [discriminate|]. exists nm, rest. split; reflexivity.
+  - apply nth_error_None in E. lia.
+Qed.
+
+Lemma operator_tables_rows : forallb row_nonempty Gen_opcodes.unops_list = true
+                             /\ forallb row_nonempty Gen_opcodes.binops_list = true.
+Proof. split; vm_compute; reflexivity. Qed.
+
+Lemma unit_operator_defined : forall u,
+  (u_cls u = unop_cls -> 0 <= u_special u < zlen Gen_opcodes.unops_list) ->
+  (u_cls u = binop_cls -> 0 <= u_special u < zlen Gen_opcodes.binops_list) ->
+  exists o, unit_operator u = Some o.
+Proof.
+  intros u Hu Hb. unfold unit_operator. destruct operator_tables_rows as [R1 R2].
+  destruct (bytes_eqb (u_cls u) unop_cls) eqn:E1.
+  - apply bytes_eqb_eq in E1. destruct (table_name_some _ _ R1 (Hu E1)) as (nm & rest & _ & T). rewrite T. eexists; reflexivity.
+  - destruct (bytes_eqb (u_cls u) binop_cls) eqn:E2.
+    + apply bytes_eqb_eq in E2. destruct (table_name_some _ _ R2 (Hb E2)) as (nm & rest & _ & T). rewrite T. eexists; reflexivity.
+    + eexists; reflexivity.
 Qed.
